@@ -1,6 +1,215 @@
-//! Site enumeration (constructor sites, effect sites, Result-inspection sites).
-use serde_json::{json, Value};
+//! Site enumeration: every occurrence, in the whole crate, of a constructor / call / method /
+//! field that carries a proof obligation (type-invariant constructor sites, effect primitives).
+//! Macro bodies are parsed as comma-separated expressions where possible; where not, their raw
+//! tokens are scanned and every hit is reported with context "unparsed-macro" (conservative).
 
-pub fn run(_root: &str, _job: &Value, _errors: &mut Vec<Value>) -> Value {
-    json!({})
+use crate::{norm, SourceFile};
+use proc_macro2::{TokenStream, TokenTree};
+use serde_json::{json, Value};
+use syn::spanned::Spanned;
+use syn::visit::{self, Visit};
+use syn::*;
+
+struct Pat_ {
+    calls: Vec<String>,   // normalized path suffixes of call expressions, e.g. "XValue::Float"
+    methods: Vec<String>, // method names, e.g. "get_rng"
+    fields: Vec<String>,  // field names, e.g. "stdout"
+    macros: Vec<String>,  // macro names, e.g. "writeln"
+}
+
+struct Scan<'a> {
+    sf: &'a SourceFile,
+    pat: &'a Pat_,
+    fns: Vec<String>,
+    macros: Vec<String>,
+    closures: usize,
+    out: Vec<Value>,
+}
+
+impl<'a> Scan<'a> {
+    fn site(&mut self, kind: &str, what: &str, sp: proc_macro2::Span, arg: String, ctx: &str) {
+        let r = self.sf.range(sp);
+        let line = self.sf.line_of(r.0);
+        let mut text = self.sf.slice(r).to_string();
+        if text.len() > 160 {
+            text.truncate(160);
+        }
+        self.out.push(json!({
+            "file": self.sf.path, "line": line, "kind": kind, "what": what,
+            "enclosing_fn": self.fns.join("::"), "in_macros": self.macros.clone(),
+            "closure_depth": self.closures, "arg": arg, "text": norm(&text), "context": ctx,
+        }));
+    }
+
+    fn scan_tokens(&mut self, ts: TokenStream) {
+        let toks: Vec<TokenTree> = ts.into_iter().collect();
+        for (i, t) in toks.iter().enumerate() {
+            match t {
+                TokenTree::Ident(id) => {
+                    let name = id.to_string();
+                    let next_is_group = matches!(toks.get(i + 1), Some(TokenTree::Group(g)) if g.delimiter() == proc_macro2::Delimiter::Parenthesis);
+                    let prev_is_dot = matches!(toks.get(i.wrapping_sub(1)), Some(TokenTree::Punct(p)) if p.as_char() == '.');
+                    if next_is_group && !prev_is_dot {
+                        // reconstruct the path `A :: B :: name` from the preceding tokens
+                        let mut full = name.clone();
+                        let mut j = i;
+                        while j >= 3 {
+                            let c1 = matches!(&toks[j - 1], TokenTree::Punct(p) if p.as_char() == ':');
+                            let c2 = matches!(&toks[j - 2], TokenTree::Punct(p) if p.as_char() == ':');
+                            if c1 && c2 {
+                                if let TokenTree::Ident(pid) = &toks[j - 3] {
+                                    full = format!("{}::{}", pid, full);
+                                    j -= 3;
+                                    continue;
+                                }
+                            }
+                            break;
+                        }
+                        for c in &self.pat.calls {
+                            if full == *c || full.ends_with(&format!("::{}", c)) {
+                                let arg = if let Some(TokenTree::Group(g)) = toks.get(i + 1) { norm(&g.stream().to_string()) } else { String::new() };
+                                self.site("call", c, id.span(), arg, "unparsed-macro");
+                            }
+                        }
+                    }
+                    if prev_is_dot {
+                        if next_is_group && self.pat.methods.contains(&name) {
+                            self.site("method", &name, id.span(), String::new(), "unparsed-macro");
+                        }
+                        if !next_is_group && self.pat.fields.contains(&name) {
+                            self.site("field", &name, id.span(), String::new(), "unparsed-macro");
+                        }
+                    }
+                    let next_is_bang = matches!(toks.get(i + 1), Some(TokenTree::Punct(p)) if p.as_char() == '!');
+                    if next_is_bang && self.pat.macros.contains(&name) {
+                        self.site("macro", &name, id.span(), String::new(), "unparsed-macro");
+                    }
+                }
+                TokenTree::Group(g) => self.scan_tokens(g.stream()),
+                _ => {}
+            }
+        }
+    }
+}
+
+fn path_text(p: &Path) -> String {
+    p.segments.iter().map(|s| s.ident.to_string()).collect::<Vec<_>>().join("::")
+}
+
+impl<'a, 'ast> Visit<'ast> for Scan<'a> {
+    fn visit_item_fn(&mut self, f: &'ast ItemFn) {
+        self.fns.push(f.sig.ident.to_string());
+        visit::visit_item_fn(self, f);
+        self.fns.pop();
+    }
+    fn visit_impl_item_fn(&mut self, f: &'ast ImplItemFn) {
+        self.fns.push(f.sig.ident.to_string());
+        visit::visit_impl_item_fn(self, f);
+        self.fns.pop();
+    }
+    fn visit_item_mod(&mut self, m: &'ast ItemMod) {
+        // unit tests are not part of the interpreter
+        if m.ident == "tests" {
+            return;
+        }
+        visit::visit_item_mod(self, m);
+    }
+    fn visit_expr_closure(&mut self, c: &'ast ExprClosure) {
+        self.closures += 1;
+        visit::visit_expr_closure(self, c);
+        self.closures -= 1;
+    }
+    fn visit_expr_call(&mut self, c: &'ast ExprCall) {
+        if let Expr::Path(p) = &*c.func {
+            let pt = path_text(&p.path);
+            for pat in &self.pat.calls {
+                if pt == *pat || pt.ends_with(&format!("::{}", pat)) {
+                    let arg = c.args.iter().map(|a| norm(self.sf.slice(self.sf.range(a.span())))).collect::<Vec<_>>().join(",");
+                    self.site("call", pat, c.span(), arg, "expr");
+                }
+            }
+        }
+        visit::visit_expr_call(self, c);
+    }
+    fn visit_expr_method_call(&mut self, m: &'ast ExprMethodCall) {
+        let name = m.method.to_string();
+        if self.pat.methods.contains(&name) {
+            self.site("method", &name, m.span(), String::new(), "expr");
+        }
+        visit::visit_expr_method_call(self, m);
+    }
+    fn visit_expr_field(&mut self, f: &'ast ExprField) {
+        if let Member::Named(id) = &f.member {
+            let name = id.to_string();
+            if self.pat.fields.contains(&name) {
+                self.site("field", &name, f.span(), String::new(), "expr");
+            }
+        }
+        visit::visit_expr_field(self, f);
+    }
+    fn visit_macro(&mut self, m: &'ast Macro) {
+        let name = m.path.segments.last().map(|s| s.ident.to_string()).unwrap_or_default();
+        if self.pat.macros.contains(&name) {
+            self.site("macro", &name, m.span(), norm(&m.tokens.to_string()), "expr");
+        }
+        self.macros.push(name.clone());
+        let parsed = m.parse_body_with(punctuated::Punctuated::<Expr, Token![,]>::parse_terminated);
+        match parsed {
+            Ok(exprs) => {
+                let v: Vec<Expr> = exprs.into_iter().collect();
+                let leaked: &'static [Expr] = Box::leak(v.into_boxed_slice());
+                for e in leaked {
+                    self.visit_expr(e);
+                }
+            }
+            Err(_) => {
+                // `macro_rules!` definitions and exotic syntax: raw token scan
+                if name != "macro_rules" {
+                    self.scan_tokens(m.tokens.clone());
+                }
+            }
+        }
+        self.macros.pop();
+    }
+}
+
+pub fn run(root: &str, job: &Value, errors: &mut Vec<Value>) -> Value {
+    let strs = |v: &Value| -> Vec<String> {
+        v.as_array().map(|a| a.iter().filter_map(|x| x.as_str().map(|s| s.to_string())).collect()).unwrap_or_default()
+    };
+    let pat = Pat_ {
+        calls: strs(&job["calls"]),
+        methods: strs(&job["methods"]),
+        fields: strs(&job["fields"]),
+        macros: strs(&job["macros"]),
+    };
+    let mut files: Vec<String> = vec![];
+    fn walk(dir: &std::path::Path, root: &std::path::Path, out: &mut Vec<String>) {
+        if let Ok(rd) = std::fs::read_dir(dir) {
+            let mut ents: Vec<_> = rd.filter_map(|e| e.ok()).collect();
+            ents.sort_by_key(|e| e.path());
+            for e in ents {
+                let p = e.path();
+                if p.is_dir() {
+                    walk(&p, root, out);
+                } else if p.extension().map(|x| x == "rs").unwrap_or(false) {
+                    out.push(p.strip_prefix(root).unwrap().to_string_lossy().to_string());
+                }
+            }
+        }
+    }
+    let rootp = std::path::Path::new(root);
+    walk(&rootp.join("src"), rootp, &mut files);
+    let mut sites = vec![];
+    for rel in files {
+        match SourceFile::load(root, &rel) {
+            Ok(sf) => {
+                let mut s = Scan { sf: &sf, pat: &pat, fns: vec![], macros: vec![], closures: 0, out: vec![] };
+                s.visit_file(&sf.ast);
+                sites.extend(s.out);
+            }
+            Err(e) => errors.push(json!({"kind": "lost-anchor", "msg": e})),
+        }
+    }
+    json!({ "sites": sites })
 }
